@@ -189,9 +189,50 @@ def run(prog, chk, tier):
                     col = [idx[i] if (basis[i] >> j) & 1 else 0 for j in range(len(out))]
                     out = g.xor(out, col)
             return out
+        if t.op == "phi":
+            # a value chosen by a range test on bit vectors of known width (`if 0 <= b <= 0xFF: fast path else: general path`):
+            # the arm the test always selects for (16-bit register, 8-bit byte); when the test is not decided, both arms must be the same map
+            verdict = range_test(t.args[0])
+            if verdict is True:
+                return g.eval(t.args[1], leaf)
+            if verdict is False:
+                return g.eval(t.args[2], leaf)
+            a_, b_ = g.eval(t.args[1], leaf), g.eval(t.args[2], leaf)
+            if a_ == b_:
+                return a_
+            raise Unsupported("the update is chosen by a test that (register, byte) widths do not decide: %s" % show(t.args[0], 4))
         if t.op in ("loopvar", "elem", "param", "sym", "attr", "sub"):
             raise Unsupported("value %s is not a function of (register, byte)" % show(t, 4))
         return None
+
+    def range_test(c: Term):
+        """True / False when the comparison(s) in c are decided by the bit widths of their operands (a vector of width w lies in 0 .. 2**w - 1), else None"""
+        from bfsa.guard import rel as _rel
+
+        def one(r):
+            if r[0] == "and":
+                vs = [one(x) for x in r[1]]
+                return False if any(v is False for v in vs) else True if all(v is True for v in vs) else None
+            if r[0] == "or":
+                vs = [one(x) for x in r[1]]
+                return True if any(v is True for v in vs) else False if all(v is False for v in vs) else None
+            if r[0] != "rel" or r[3] is None or r[1] not in ("Lt", "LtE", "Gt", "GtE"):
+                return None
+            try:
+                a_, b_ = g.eval(unsnap(r[2]), leaf), g.eval(unsnap(r[3]), leaf)
+            except Unsupported:
+                return None
+            lo_a, hi_a = (g.as_const(a_),) * 2 if g.as_const(a_) is not None else (0, (1 << g.width(a_)) - 1)
+            lo_b, hi_b = (g.as_const(b_),) * 2 if g.as_const(b_) is not None else (0, (1 << g.width(b_)) - 1)
+            op = r[1]
+            if op in ("Gt", "GtE"):
+                lo_a, hi_a, lo_b, hi_b = lo_b, hi_b, lo_a, hi_a
+                op = "Lt" if op == "Gt" else "LtE"
+            if op == "Lt":
+                return True if hi_a < lo_b else False if lo_a >= hi_b else None
+            return True if hi_a <= lo_b else False if lo_a > hi_b else None
+
+        return one(_rel(c, True))
 
     nxt = lr.next.get(reg)
     if nxt is None:
@@ -199,10 +240,42 @@ def run(prog, chk, tier):
         return
     try:
         m = g.eval(nxt, leaf)
-    except Unsupported:
+    except Unsupported as u_:
         if any(o.status == "violation" and o.rule == "C15.R1.step-table-affine" for o in chk.obls):
             return  # the table itself is wrong: reported above
-        raise
+        # the update uses an operation the affine domain cannot follow (`|` of overlapping fields, `+`, ...).  It may still be the right function; it may not.
+        # The extracted term is evaluated with the checker's own arithmetic on a grid of (register, byte) values: one disagreement with the bit-serial
+        # definition is a definite counterexample (reported), agreement on the grid decides nothing (the check stays undecided, exit 2).
+        from bfsa.evalterm import NoEval, eval_term
+
+        def ref_step(crc, c):
+            crc ^= c
+            for _ in range(8):
+                crc = (crc >> 1) ^ (POLY if crc & 1 else 0)
+            return crc
+
+        regt = mk("loopvar", lid, reg)
+        cex = None
+        try:
+            grid_regs = [0, 0xFFFF, 0x00FF, 0xFF00, 0x1234, 0x8408, 0x6F91, 0xA5A5] + [(r_ * 0x0101) & 0xFFFF for r_ in range(0, 256, 5)]
+            for r_ in grid_regs:
+                for c_ in range(256):
+                    env = {regt.uid: r_}
+                    if elem is not None:
+                        env[unsnap(elem).uid] = c_
+                    got = eval_term(nxt, env)
+                    if got != ref_step(r_, c_):
+                        cex = (r_, c_, got, ref_step(r_, c_))
+                        break
+                if cex:
+                    break
+        except (NoEval, TypeError, ValueError, ZeroDivisionError):
+            raise u_
+        if cex is None:
+            raise u_
+        chk.fail("C15.R1.transfer-matrix", FN, "cur_crc' = f(cur_crc, byte)", where,
+                 "for register 0x%04X and byte 0x%02X the loop body gives 0x%04X, the bit-serial CRC-16/MCRF4XX step gives 0x%04X (the update is not GF(2)-affine: %s)" % (cex + (u_,)))
+        return
     ref = reference_step(g)
     diff = [i for i in range(16) if m[i] != ref[i]]
     chk.info["matrix_rows"] = ["%06x" % m[i] for i in range(16)]
